@@ -1,8 +1,9 @@
 /-
 C12 — configuration selection honours -D and -U and covers guarded code.
 
-`getConfigsWith fl` is the copy of `Preprocessor::getConfigs`; `Flags.code` is the code as it is,
-`Flags.repaired` the candidate repair (stack depth kept at `#else`, `#if !defined(X)` treated as `#ifndef X`).
+`getConfigsWith fl` is the copy of `Preprocessor::getConfigs`; `Flags.code` is the code as it is (since commit
+4aed040 the stack depth is kept at `#else`), `Flags.old` the fold before that commit, `Flags.repaired` additionally
+treats `#if !defined(X)` as `#ifndef X` (modelled repair of F16, not in the code).
 -/
 import Cppcheck.Proofs.Configs
 namespace Cppcheck.Configs
@@ -46,16 +47,16 @@ def witnessF15 : Items :=
 def witnessF16 : Items :=
   .cond .ifNotDefined ['M','3'] (.region 0 (.cond .ifDefined ['M','1'] (.region 1 .done) .done)) .done
 
-/-- F15: the full-strength statement is false of the code -/
-theorem region_uncovered_counterexample : ¬ EveryRegionCovered Flags.code := by
+/-- F15 (fixed by commit 4aed040): the full-strength statement was false of the fold before the commit -/
+theorem region_uncovered_counterexample : ¬ EveryRegionCovered Flags.old := by
   intro h
   have := h {} witnessF15 (by decide) 4 (by decide)
   revert this
   decide
 
-/-- F16: it stays false when only the `#else` stack repair is applied -/
+/-- F16: the full-strength statement is false of the code as it is (and was false before 4aed040 for this reason too) -/
 theorem region_uncovered_counterexample_notdefined :
-    ¬ EveryRegionCovered Flags.code ∧ ¬ EveryRegionCovered { fixElse := true, fixNotDef := false } := by
+    ¬ EveryRegionCovered Flags.code ∧ ¬ EveryRegionCovered Flags.old := by
   constructor
   · intro h
     have := h {} witnessF16 (by decide) 1 (by decide)
@@ -72,7 +73,8 @@ theorem every_region_covered_partial (inp : Inp) (t : Items)
     ∀ r ∈ t.regions, ∃ c ∈ getConfigs inp t.flatten, live c t r = true :=
   every_region_covered_of_safe Flags.code inp t hf hs
 
-example : inFamily {} witnessF15 = true ∧ safe Flags.code witnessF15 = false := by decide
+example : inFamily {} witnessF15 = true ∧ safe Flags.old witnessF15 = false ∧ safe Flags.code witnessF15 = true := by decide
+example : inFamily {} witnessF16 = true ∧ safe Flags.code witnessF16 = false := by decide
 /-- a non-trivial inhabitant of both hypotheses: nesting depth 3, `#else` of an `#ifndef` inside, a later sibling -/
 example : let t : Items := .cond .ifdef ['A'] (.condElse .ifndef ['B'] (.region 0 .done) (.region 1 .done)
       (.cond .ifDefined ['C'] (.region 2 (.condElse .ifdef ['D'] (.region 3 .done) (.region 4 .done) .done)) .done)) (.region 5 .done)
@@ -125,7 +127,7 @@ theorem every_region_covered_iff_safe (fl : Flags) (inp : Inp) (t : Items) (hf :
       rw [hno c hc] at hl; exact absurd hl (by simp)
   · exact every_region_covered_of_safe fl inp t hf
 
-example : inFamily {} witnessF15 = true ∧ witnessF15.regions.Nodup ∧ safe Flags.code witnessF15 = false := by decide
+example : inFamily {} witnessF16 = true ∧ witnessF16.regions.Nodup ∧ safe Flags.code witnessF16 = false := by decide
 
 /-! ### the repaired algorithm -/
 
@@ -145,30 +147,14 @@ theorem family_names {inp : Inp} {t : Items} (hf : inFamily inp t = true) : ∀ 
   simp only [inFamily, Bool.and_eq_true, List.all_eq_true] at hf
   exact fun m hm => okName_ne_nil (hf.2 m hm).1.1
 
-/-- the proposed patch alone (`/verif/proposed/C12-else-stack.diff`): every region is covered in every family
-    tree whose `#if !defined` conditionals contain regions only (what remains outside is F16) -/
+/-- **main theorem for the code as it is**: every region is covered in every family tree whose `#if !defined`
+    conditionals contain regions only (what remains outside is F16) -/
 theorem every_region_covered_fixElse (inp : Inp) (t : Items) (hf : inFamily inp t = true) (hl : ndLeaf t = true) :
-    ∀ r ∈ t.regions, ∃ c ∈ getConfigsWith { fixElse := true } inp t.flatten, live c t r = true :=
-  every_region_covered_of_safe _ inp t hf
-    (safeItems_fixElse (fl := { fixElse := true }) rfl t [] [] (family_names hf) hl (by decide))
+    ∀ r ∈ t.regions, ∃ c ∈ getConfigs inp t.flatten, live c t r = true :=
+  every_region_covered_of_safe Flags.code inp t hf
+    (safeItems_fixElse (fl := Flags.code) rfl t [] [] (family_names hf) hl (by decide))
 
 example : inFamily {} witnessF15 = true ∧ ndLeaf witnessF15 = true := by decide
-
-/-- a syntactic class inside `safe Flags.code`: `#else` of `#ifdef`/`#if` conditionals only at the top level,
-    `#if !defined` conditionals with regions only -/
-theorem every_region_covered_simple (inp : Inp) (t : Items) (hf : inFamily inp t = true)
-    (hl : ndLeaf t = true) (hs : simpleElse t = true) :
-    ∀ r ∈ t.regions, ∃ c ∈ getConfigs inp t.flatten, live c t r = true :=
-  every_region_covered_partial inp t hf (safeItems_simpleElse Flags.code t (family_names hf) hl hs)
-
-def exampleSimple : Items :=
-  .condElse .ifdef ['A']
-    (.cond .ifDefined ['B'] (.region 0 .done)
-      (.condElse .ifndef ['C'] (.region 1 .done) (.region 2 (.cond .ifdef ['D'] (.region 3 .done) .done)) .done))
-    (.cond .ifNotDefined ['E'] (.region 4 .done) .done)
-    (.region 5 .done)
-
-example : inFamily {} exampleSimple = true ∧ ndLeaf exampleSimple = true ∧ simpleElse exampleSimple = true := by decide
 
 /-! ### budget, -D, -U -/
 
